@@ -450,13 +450,32 @@ def decl_eval(chk, events, name):
     return behav, bad, ends[0]
 
 
+class Deferred(object):
+    """Stands in for the Check object inside a worker thread: records the calls (case / violation / sample / add_tlc) and the
+    trace count, replayed into the real object by the main thread (the Check object is not written to from two threads)."""
+
+    def __init__(self):
+        self.calls = []
+        self.traces = 0
+
+    def __getattr__(self, name):
+        def rec(*a, **k):
+            self.calls.append((name, a, k))
+        return rec
+
+    def replay_into(self, chk):
+        for name, a, k in self.calls:
+            getattr(chk, name)(*a, **k)
+        chk.traces += self.traces
+
+
 def boundaries_and_declarators(chk, b, wd, fam, variants, tiny, quick, rnd, oldlib, decl_progs, decl_exp):
     """8c. every unit is replayed at the limits CSplitPlan.tla derives from its MEASURED statement estimate;
        8d. the declarator family under -Cold / -Cold -Csmax=k / -Cstandard at -Q0..-Q3, heads judged by CDeclEval.tla."""
     info = {}
     # ---- units: (id, text, qopts, expected, small?) ----
     units = []
-    nsmall = 2 if quick else 8
+    nsmall = 1 if quick else 5
     qlevels = [None] if quick else [None, "0", "3"]
     for (p, style, names, real) in [(tp, "plain", None, None) for tp in tiny] + [v for v in variants if v[1] != "crafted"][:nsmall]:
         for q in qlevels:
@@ -476,7 +495,7 @@ def boundaries_and_declarators(chk, b, wd, fam, variants, tiny, quick, rnd, oldl
         if S is None:
             raise vlib.MachineryError("statement estimate of %s could not be measured: %s" % (u["id"], probes))
         u["S"] = S
-        u["small"] = S <= (200 if quick else 400)
+        u["small"] = S <= (130 if quick else 400)
         u["probes"] = probes
         measured.append(u)
     plan = split_plan(chk, [(u["id"], u["S"], u["small"]) for u in measured])
@@ -550,6 +569,8 @@ def boundaries_and_declarators(chk, b, wd, fam, variants, tiny, quick, rnd, oldl
     nprog = 2 if quick else len(decl_progs)
     for pi, dp in enumerate(decl_progs[:nprog]):
         for q in ("0", "1", "2", "3"):
+            if quick and (int(q) + pi) % 2 == 1:
+                continue                                           # quick: program 0 at -Q0/-Q2, program 1 at -Q1/-Q3
             k1 = 60 + 37 * pi + 11 * int(q)                        # a few hundred statements per unit: 10..20 parts
             cfgs = [("std", ["-Cstandard"], "shipped"), ("old", ["-Cold"], "samedialect"), ("old-split", ["-Cold", "-Csmax=%d" % k1], "samedialect")]
             if not quick:
@@ -630,7 +651,7 @@ def boundaries_and_declarators(chk, b, wd, fam, variants, tiny, quick, rnd, oldl
                           {"head": bh, "recorded": [e for e in events if e["fn"] == bh["fn"] and e["prog"] == bh["prog"]][:1]},
                           key={"kind": "declarator-mismatch", "fn": base, "problems": sorted(re.sub(r"P\d+_\w+|R\d+", "_", x) for x in bh["problems"])})
     intended = sum(1 for e in events if e["intended"])
-    if events and intended < 8 * nprog:
+    if events and intended < 4 * nprog:
         raise vlib.MachineryError("only %d recorded heads of the declarator family carry an intended signature" % intended)
     info["declarator_runs"] = per
     info["declarator_heads_judged"] = {"heads": len(events), "with_intended_kinds": intended, "bad": nbadheads, "only_in_one_dialect": unmatched, "tlc": hend}
@@ -885,6 +906,12 @@ def run(chk, tier):
         results = list(ex.map(do, jobs))
     chk.traces += len(jobs)
     marks["replay"] = time.time() - t_start
+    # ---- 8c/8d (started here, judged below): split boundaries from the measured estimates; the declarator family.  The
+    # phases 6..8b are mostly sequential (TLC with few workers, one scenario after the other), so this runs beside them.
+    oldlib = f_oldlib.result()
+    deferred = Deferred()
+    bd_pool = concurrent.futures.ThreadPoolExecutor(max_workers=1)
+    f_bd = bd_pool.submit(boundaries_and_declarators, deferred, b, wd, fam, list(variants), tiny, quick, rnd, oldlib, decl_progs, decl_exp)
 
     # reference outputs (nothing truncated) for the alignment: per (variant, std, smax, lines)
     refs = {}
@@ -1042,12 +1069,14 @@ def run(chk, tier):
     chk.extra["multi_unit_scenarios"] = scenarios(chk, b, wd, colp, fam.exp[colp["id"]], frame, rnd, libs.get(0) or build_libs(b, ("-Cidlen=0",)))
     marks["scenarios"] = time.time() - t_start
     # ---- 8c/8d. split boundaries from the measured estimates; the declarator family -------------------------------
-    oldlib = f_oldlib.result()
     chk.case(("library", "('-Cold',)"), nontrivial=True)
     for (unit, phase, text) in oldlib["failures"]:
         chk.violation("library unit %s does not compile under %s: %s" % (unit, oldlib["opts"], phase), {"unit": unit, "opts": oldlib["opts"], "text": text},
                       key={"kind": "link-fail", "unit": unit, "opts": oldlib["opts"], "where": "library"})
-    chk.extra.update(boundaries_and_declarators(chk, b, wd, fam, variants, tiny, quick, rnd, oldlib, decl_progs, decl_exp))
+    bd_info = f_bd.result()
+    bd_pool.shutdown()
+    deferred.replay_into(chk)
+    chk.extra.update(bd_info)
     chk.extra["model_split_rows"] = sorted(split_rows, key=lambda x: (x["S"], x["N"]))[:12]
     marks["boundaries+declarators"] = time.time() - t_start
     # ---- 9. option machine: a later option of a group overrides an earlier one (drift only) -------------------
